@@ -17,7 +17,7 @@
                                    cut at a CDATA node inside an open CDATA section is C02c_cdata_in_cdata_stops) *)
 From Coq Require Import List NArith String.
 From Wbxml Require Import Model.TablesDefs Model.Tables Model.LangSelect Model.Conv Model.EncWbxml Model.EncWbxmlTables Model.XmlFront Model.ConvXml2Wbxml.
-From Wbxml Require Import Proofs.XmlFrontProofs Proofs.XmlFrontTree Proofs.XmlFrontNames Proofs.ConvXml2WbxmlProofs Proofs.EncWbxmlSize Proofs.EncWbxmlSize2 Proofs.ConvXml2WbxmlSize.
+From Wbxml Require Import Proofs.XmlFrontProofs Proofs.XmlFrontTree Proofs.XmlFrontNames Proofs.XmlFrontSize Proofs.ConvXml2WbxmlProofs Proofs.EncWbxmlSize Proofs.EncWbxmlSize2 Proofs.ConvXml2WbxmlSize.
 From Wbxml Require Import Gen.TablesData.
 Import ListNotations.
 
@@ -107,6 +107,18 @@ Theorem C02c_linear_size_expat :
             List.length out <= 33 * wsizes (hdr_max btbl) (xt_roots t) + hdr_max btbl.
 Proof. exact xml2wbxml_linear_size_expat. Qed.
 Print Assumptions C02c_linear_size_expat.
+
+(* output and intermediate tree against the volume of the events Expat delivered for the document (Expat's entity
+   expansion is inside that volume; bounding it against the document's length is Expat 2.5's own amplification limit) *)
+Theorem C02c_linear_in_events :
+  forall main btbl expat fuel o doc out n,
+  Forall lang_names_ok main -> Forall lang_vals_ok btbl -> (forall d, Forall ev_names_ok (fst (expat d))) ->
+  xml2wbxml main btbl expat fuel o doc = mk_res ST_OK (Some out) n ->
+  exists t, tree_from_xml_fuel main expat fuel doc = inl t /\
+            (nszs (xt_roots t) <= evvol (fst (expat doc)))%nat /\
+            (List.length out <= 33 * (evvol (fst (expat doc)) + embs (hdr_max btbl) (xt_roots t)) + hdr_max btbl)%nat.
+Proof. exact xml2wbxml_linear_in_events. Qed.
+Print Assumptions C02c_linear_in_events.
 
 Theorem C02c_tables_names_ok : Forall lang_names_ok main_table.
 Proof. exact main_table_names_ok. Qed.
